@@ -21,7 +21,7 @@ def q(x):
 
 
 HUGE = 1 << 17  # finite observations are clamped to +-HUGE (spec values stay far below)
-EXACT_DEN = 1 << 14
+EXACT_DEN = 1 << 20
 QUANT_DEN = 1 << 10
 
 
@@ -43,8 +43,10 @@ def enc(x, *, quant_den=QUANT_DEN, exact_den=EXACT_DEN):
     if fx.denominator <= exact_den and abs(fx.numerator) < (1 << 28):
         return [fx.numerator, fx.denominator]
     # the quantisation error must stay well below the comparison tolerance 2^-12 (1 + |x|)
-    if quant_den == QUANT_DEN and abs(x) < 4096:
-        quant_den = 1 << 14
+    if quant_den == QUANT_DEN and abs(x) < 1024:
+        quant_den = 1 << 20
+    elif quant_den == QUANT_DEN and abs(x) < 16384:
+        quant_den = 1 << 16
     return q(F(round(fx * quant_den), quant_den))
 
 
@@ -196,6 +198,8 @@ def params(m, leaf="float"):
 
     def mk(v):
         v = float(v)
+        if leaf == "inplace":      # mutable 0-d numpy arrays: a user may update them in place between calls
+            return np.array(v, dtype=np.float32)
         if leaf == "numpy":
             return np.float32(v)
         if leaf == "jax":
@@ -216,8 +220,25 @@ def params(m, leaf="float"):
 
     p = {k: conv(v) for k, v in m["params"].items() if k != "shocks"}
     if "shocks" in m["params"]:
-        p["shocks"] = {k: jnp.array(arr(v)) for k, v in m["params"]["shocks"].items()}
+        mkarr = (lambda x: np.array(x, dtype=np.float32)) if leaf == "inplace" else jnp.array
+        p["shocks"] = {k: mkarr(arr(v)) for k, v in m["params"]["shocks"].items()}
     return p
+
+
+def update_params_inplace(obj, m):
+    """Overwrite the values of a params object created with leaf='inplace' by those of model description m."""
+    import numpy as np
+
+    new = params(m, leaf="inplace")
+
+    def rec(dst, src):
+        for k, v in src.items():
+            if isinstance(v, dict):
+                rec(dst[k], v)
+            else:
+                dst[k][...] = np.asarray(v)
+    rec(obj, new)
+    return obj
 
 
 def var_by_name(m, name):
